@@ -33,6 +33,7 @@ type sRef struct {
 
 type sessRun struct {
 	aging  bool
+	edge   bool // the last seconds of the 24-hour limit: a save at age 86399 s, at 86400 s, and one second later
 	sm     *oidc.SessionManager
 	force  bool
 	jar    jar
@@ -347,6 +348,8 @@ func (s *sessRun) lineCheck(line string) (short string, n int, deleted bool) {
 		if ma > 86400 {
 			fail("cookie lifetime above 24 hours")
 		}
+	} else {
+		fail("cookie without Max-Age: nothing bounds its lifetime (the browser keeps it for the whole browsing session)")
 	}
 	if strings.Contains(low, "; domain=") {
 		fail("Set-Cookie with a Domain attribute")
@@ -374,10 +377,20 @@ func familySession(t *testing.T) {
 			if s.aging {
 				nReq = 5 + rng.Intn(4)
 			}
+			s.edge = h%8 == 6
+			if s.edge {
+				nReq = 4
+				T.stat("session.lifetime-edge-histories")
+			}
 			for q := 0; q < nReq; q++ {
 				s.request(rng, q)
 				if s.aging {
 					time.Sleep(9*time.Hour + time.Duration(rng.Intn(3600))*time.Second)
+				}
+				if s.edge { // renewed one second before the limit, exactly at it, and one second past it
+					time.Sleep([]time.Duration{86399 * time.Second, time.Second, time.Second, time.Second}[q])
+					synctest.Wait()
+					continue
 				}
 				time.Sleep([]time.Duration{0, time.Second, time.Minute, time.Hour, 5 * time.Hour}[rng.Intn(5)])
 				synctest.Wait()
@@ -496,12 +509,12 @@ func (s *sessRun) request(rng *mrand.Rand, q int) {
 	}
 	rec := httptest.NewRecorder()
 	saves := 1
-	if rng.Intn(5) == 0 {
+	if rng.Intn(5) == 0 && !s.edge {
 		saves = 2 // several saves in one response
 	}
 	for sv := 0; sv < saves; sv++ {
 		nW := rng.Intn(5)
-		if s.aging && q == 0 && sv == 0 { // scripted: a login with tokens of several chunks each
+		if (s.aging || s.edge) && q == 0 && sv == 0 { // scripted: a login with tokens of several chunks each
 			for _, field := range []string{"access", "refresh"} {
 				tok := textWithCompressedLen(rng, (2+rng.Intn(3))*2000+rng.Intn(900), alnum)
 				id := s.reg(tok)
@@ -520,7 +533,7 @@ func (s *sessRun) request(rng *mrand.Rand, q int) {
 			s.ref.created = now
 			s.rec(M{"op": "sset", "field": "auth", "bool": true})
 		}
-		if s.aging && q > 0 && q < 3 {
+		if (s.aging || s.edge) && q > 0 && q < 3 {
 			nW = 0 // the session is only carried along (every response renews the cookies) until it is over age
 		}
 		for i := 0; i < nW; i++ {
@@ -579,7 +592,7 @@ func (s *sessRun) request(rng *mrand.Rand, q int) {
 		}
 		before := len(rec.Header()["Set-Cookie"])
 		op := "ssave"
-		if rng.Intn(8) == 0 {
+		if rng.Intn(8) == 0 && !s.edge {
 			op = "sclear"
 			if err := sd.Clear(r, rec); err != nil {
 				T.oracle("C17", "Clear failed", M{"err": err.Error()}, s.replay())
